@@ -81,6 +81,11 @@ CHECKS = {
         text="Exploration, exhaustive over the stated finite grid: every ordered pair of numeric kinds x every operator x every pair of boundary values, in map-env, struct-env, untyped and literal-operand modes, then random full-range values; result must be Exact (kind and value, NaN-aware) and of the kind checker.Check predicts; integer division by zero must fail.",
         note="Trusted: reference arithmetic in harness/core/refeval.go (RefArith, RefNegate) built on reflect.Value.Convert and Go's own operators; grid membership is a harness choice.",
         ref="4/C14"),
+    "C16": dict(
+        technique="bounded exhaustive enumeration of a hand-written catalogue of environment types + property-based testing (rapid) over struct types generated at run time with reflect.StructOf; reference model = Go's selector rule (reflect.FieldByName/MethodByName, cross-checked by an independent breadth-first resolver); differential between Compile, Run, checker.Check and docgen.CreateDoc",
+        text="Exploration: for generated struct types (embedding by value and pointer to depth 3, shadowing in either declaration order, genuine ambiguity, func-valued fields) and 20 catalogued environments (value/pointer-receiver methods, promoted methods, unexported fields and embedded structs, method/field clashes across depths, maps with methods, typed and untyped maps, nested members by value and pointer) every member name at every depth and near-miss names are tried as identifier, call, nested member and nested method call: accepted => runs on a fully populated value with the checker's type; Go-unambiguous exported member of a struct environment => accepted; docgen lists exactly the accepted top-level names.",
+        note="Trusted: reflect's FieldByName/MethodByName as Go's rule; full population of generated values. Method names are exercised only as calls (a method used as a bare identifier is accepted by the checker but is not a value the VM can fetch - outside the roles the property lists).",
+        ref="4/C16"),
     "C18": dict(
         technique="property-based testing (rapid) with metamorphic oracles: twelve identities between separately compiled programs (and the single expression `(lhs) == (rhs)`), related by the harness; a static-type identity for nested closures via checker.Check",
         text="Exploration: generated arrays (environment arrays of every element type, literals, ranges, results of other builtins, slices, conditionals; empty/singleton/long) and generated predicates/mappers that themselves contain builtins (nesting to 3, thorough 5) instantiate all/any, none/any, one/count, count/filter, len-map, filter-as-mask, closure scoping (own element preserved across an inner builtin; innermost `#` ranges over the innermost collection, 2-3 levels, dynamically and in the checker's static type), in-range vs two-sided comparison (int/int64 operands), and slicing partitions (length, elementwise, strings); optimiser on and off, typed and untyped. No expected-value table and no reference evaluator.",
